@@ -47,6 +47,10 @@ SAFE_METHODS = {
     "warning", "warn", "critical", "acquire", "release", "is_alive", "wait", "set", "start", "join",
     "monotonic_ns", "rstrip", "pop", "count", "index", "sleep", "randint", "choice", "pack", "unpack",
     "from_bytes", "to_bytes", "groups", "match", "measure_dummy",
+    # total predicates / conversions of str and bytes
+    "isspace", "isalpha", "isalnum", "isupper", "islower", "isascii", "isprintable", "isnumeric", "isdecimal", "isidentifier",
+    "istitle", "title", "capitalize", "casefold", "swapcase", "partition", "rpartition", "rfind", "splitlines", "expandtabs",
+    "removeprefix", "removesuffix", "ljust", "rjust", "center", "zfill",
 }
 
 
